@@ -161,6 +161,16 @@ Definition slot_salts (ps : N) (w : list N) : list (N * N) :=
 Definition vans_code (v : vans) : N :=
   match v with VSnap => 0 | VIncrAt => 1 | VIncrHdr false => 2 | VIncrHdr true => 3 end.
 
+(** the decision of the byte-level model as a code of [vans_code]: 0 snapshot, 1 incremental
+    from the cursor, 2 / 3 incremental from the header of a new generation (3: syncedToWALEnd
+    is cleared) *)
+Definition verify_code (pos : N) (last : l0hdr) (info : sinfo) : N :=
+  if N.eqb pos 0 then 0
+  else if i_snap info then 0
+  else if N.eqb (i_offset info) (l_off last + l_size last)
+          && pair_eqb (i_s1 info, i_s2 info) (l_s1 last, l_s2 last) then 1
+  else if i_clear info then 3 else 2.
+
 Definition machine_verify_agrees (x : sx) : sx :=
   let ps := asN (nthx 0 x) in
   let pos := asN (nthx 3 x) in
@@ -182,11 +192,7 @@ Definition machine_verify_agrees (x : sx) : sx :=
   | VErr => sxN 1
   | VOk info =>
       let cursor := l_off + l_size in
-      let byte_code : N :=
-        if N.eqb pos 0 then 0
-        else if i_snap info then 0
-        else if N.eqb (i_offset info) cursor && pair_eqb (i_s1 info, i_s2 info) ls then 1
-        else if i_clear info then 3 else 2 in
+      let byte_code : N := verify_code pos last info in
       let hs := (be32 w 16, be32 w 20) in
       let slots := slot_salts ps w in
       let ids := hs :: ls :: slots in
